@@ -231,6 +231,8 @@ func randDir(rng *rand.Rand, dim int) V {
 // solids
 
 func checkSolid(c *vlib.Case, dim int, s *spec, b solidBundle) {
+	tl := newTally(c)
+	defer tl.flush()
 	rng := c.Rng
 	r := s.ref()
 	t := s.adapter(dim)
@@ -242,8 +244,8 @@ func checkSolid(c *vlib.Case, dim int, s *spec, b solidBundle) {
 		return
 	}
 	pre := fmt.Sprintf("solid%dd.", dim)
-	c.Count(pre+"objects."+baseKind(b.kind), 1)
-	c.Count(pre+"api."+api, 1)
+	tl.Count(pre+"objects."+baseKind(b.kind), 1)
+	tl.Count(pre+"api."+api, 1)
 	key := func(clause string) string { return fmt.Sprintf("%s[%s]/%s", api, s.Kind, clause) }
 	lo, hi := b.orig.lo(), b.orig.hi()
 	scale := boxScale(lo, hi)
@@ -280,7 +282,7 @@ func checkSolid(c *vlib.Case, dim int, s *spec, b solidBundle) {
 				b.spy.reset()
 				b.spy.retB = want
 				got := w.contains(q)
-				c.Count(pre+"spy_queries", 1)
+				tl.Count(pre+"spy_queries", 1)
 				if got != want {
 					wl, wh := w.lo(), w.hi()
 					clause := "result"
@@ -307,9 +309,9 @@ func checkSolid(c *vlib.Case, dim int, s *spec, b solidBundle) {
 			continue
 		}
 		got := w.contains(q)
-		c.Count(pre+"membership", 1)
+		tl.Count(pre+"membership", 1)
 		if want {
-			c.Count(pre+"membership.inside", 1)
+			tl.Count(pre+"membership.inside", 1)
 		}
 		if got != want {
 			wl, wh := w.lo(), w.hi()
@@ -331,6 +333,8 @@ func checkSolid(c *vlib.Case, dim int, s *spec, b solidBundle) {
 // SDFs
 
 func checkSDF(c *vlib.Case, dim int, s *spec, b sdfBundle) {
+	tl := newTally(c)
+	defer tl.flush()
 	rng := c.Rng
 	r := s.ref()
 	t := s.adapter(dim)
@@ -342,7 +346,7 @@ func checkSDF(c *vlib.Case, dim int, s *spec, b sdfBundle) {
 		return
 	}
 	pre := fmt.Sprintf("sdf%dd.", dim)
-	c.Count(pre+"objects."+baseKind(b.kind), 1)
+	tl.Count(pre+"objects."+baseKind(b.kind), 1)
 	key := func(clause string) string { return fmt.Sprintf("%s[%s]/%s", api, s.Kind, clause) }
 	lo, hi := b.orig.lo(), b.orig.hi()
 	scale := boxScale(lo, hi)
@@ -363,7 +367,7 @@ func checkSDF(c *vlib.Case, dim int, s *spec, b sdfBundle) {
 			v := rng.NormFloat64() * scale
 			b.spy.retVal = v
 			got := w.sdf(q)
-			c.Count(pre+"spy_queries", 1)
+			tl.Count(pre+"spy_queries", 1)
 			if b.spy.calls == 0 {
 				c.Violationf(key("original-not-consulted"), wit(s, "p", p), "SDF(t(p)) did not consult the original SDF")
 				continue
@@ -386,7 +390,7 @@ func checkSDF(c *vlib.Case, dim int, s *spec, b sdfBundle) {
 		got := w.sdf(q)
 		want := k * v0
 		tol := relTol*math.Abs(want) + k*ptol*4
-		c.Count(pre+"values", 1)
+		tl.Count(pre+"values", 1)
 		if !(math.Abs(got-want) <= tol) {
 			c.Violationf(key("scaled-distance"), wit(s, "object", objDesc(b.kind, b.desc), "p", p, "t(p)", q, "orig_sdf", v0, "factor", k, "got", got, "tol", tol),
 				"%s of %s: SDF(t(p)) = %.17g, expected factor*SDF(p) = %.17g", api, b.kind, got, want)
@@ -423,6 +427,8 @@ func genRay(rng *rand.Rand, dim int, lo, hi V) (V, V) {
 }
 
 func checkCollider(c *vlib.Case, dim int, s *spec, b colliderBundle, ballName string) {
+	tl := newTally(c)
+	defer tl.flush()
 	rng := c.Rng
 	r := s.ref()
 	ri := r.inv()
@@ -434,7 +440,7 @@ func checkCollider(c *vlib.Case, dim int, s *spec, b colliderBundle, ballName st
 		return
 	}
 	pre := fmt.Sprintf("collider%dd.", dim)
-	c.Count(pre+"objects."+baseKind(b.kind), 1)
+	tl.Count(pre+"objects."+baseKind(b.kind), 1)
 	// Keys name the mechanism, not the entry point: RayCollisions and
 	// FirstRayCollision share the pull-back of the ray and the push-forward of
 	// the collision, so one defect there gets one key.
@@ -456,6 +462,7 @@ func checkCollider(c *vlib.Case, dim int, s *spec, b colliderBundle, ballName st
 	lo, hi := b.orig.lo(), b.orig.hi()
 	scale := boxScale(lo, hi)
 	c.Nontrivial(fmt.Sprintf("collider|%d|%s|%v", dim, b.kind, s.describe()))
+	c.Sample(fmt.Sprintf("collider%dd.%s", dim, baseKind(b.kind)), 1, wit(s, "object", objDesc(b.kind, b.desc)))
 
 	// expected unit normal in outer space for an inner unit normal
 	outerNormal := func(n V) V { return lin(r, n).unit() }
@@ -493,7 +500,7 @@ func checkCollider(c *vlib.Case, dim int, s *spec, b colliderBundle, ballName st
 			if p := callSafely(func() { cnt, got = w.rays(Q, E, true) }); p != "" {
 				c.Violationf(key("RayCollisions", "panic"), wray("panic", p), "RayCollisions panicked: %s", p)
 			} else {
-				c.Count(pre+"spy_rays", 1)
+				tl.Count(pre+"spy_rays", 1)
 				if sp.calls == 0 {
 					c.Violationf(key("RayCollisions", "original-not-consulted"), wray(), "RayCollisions did not consult the original collider")
 				} else {
@@ -520,14 +527,14 @@ func checkCollider(c *vlib.Case, dim int, s *spec, b colliderBundle, ballName st
 			sp.reset()
 			if p := callSafely(func() { cnt, _ = w.rays(Q, E, false) }); p != "" {
 				if n > 0 {
-					c.Count(pre+"spy_nil_callback_with_hits", 1)
+					tl.Count(pre+"spy_nil_callback_with_hits", 1)
 				}
 				c.Violationf(key("RayCollisions", "nil-callback"), wray("panic", p, "original_hits", n),
 					"RayCollisions(ray, nil) panicked (%s); a nil callback is documented as counting only", p)
 			} else {
-				c.Count(pre+"spy_nil_callback", 1)
+				tl.Count(pre+"spy_nil_callback", 1)
 				if n > 0 {
-					c.Count(pre+"spy_nil_callback_with_hits", 1)
+					tl.Count(pre+"spy_nil_callback_with_hits", 1)
 				}
 				if cnt != n {
 					c.Violationf(key("RayCollisions", "nil-callback-count"), wray("returned", cnt, "original_hits", n),
@@ -541,7 +548,7 @@ func checkCollider(c *vlib.Case, dim int, s *spec, b colliderBundle, ballName st
 			if p := callSafely(func() { fh, fok = w.first(Q, E) }); p != "" {
 				c.Violationf(key("FirstRayCollision", "panic"), wray("panic", p), "FirstRayCollision panicked: %s", p)
 			} else {
-				c.Count(pre+"spy_first", 1)
+				tl.Count(pre+"spy_first", 1)
 				if fok != (n > 0) {
 					c.Violationf(key("FirstRayCollision", "collides"), wray("collides", fok, "original_hits", n), "FirstRayCollision collides = %v, original has %d hits", fok, n)
 				} else if fok {
@@ -569,7 +576,7 @@ func checkCollider(c *vlib.Case, dim int, s *spec, b colliderBundle, ballName st
 					sp.reset()
 					sp.retB = want
 					got := w.ball(C, k*rad)
-					c.Count(pre+"spy_balls", 1)
+					tl.Count(pre+"spy_balls", 1)
 					ctol := relTol * ac.M * ac.G * ac.K
 					if sp.calls == 0 {
 						c.Violationf(key(ballName, "original-not-consulted"), wit(s, "center", cen), "%s did not consult the original collider", ballName)
@@ -625,8 +632,8 @@ func checkCollider(c *vlib.Case, dim int, s *spec, b colliderBundle, ballName st
 			c.Violationf(key("RayCollisions", "panic"), wray("panic", p), "RayCollisions panicked: %s", p)
 			continue
 		}
-		c.Count(pre+"rays", 1)
-		c.Count(fmt.Sprintf("%srays.hits%d", pre, minInt(n0, 3)), 1)
+		tl.Count(pre+"rays", 1)
+		tl.Count(fmt.Sprintf("%srays.hits%d", pre, minInt(n0, 3)), 1)
 		if cnt != n0 || len(got) != n0 {
 			c.Violationf(key("RayCollisions", "hits"), wray("returned", cnt, "callbacks", len(got), "original_hits", n0),
 				"%s: %d hits (%d callbacks) on the transformed ray, %d on the original ray", b.kind, cnt, len(got), n0)
@@ -660,7 +667,7 @@ func checkCollider(c *vlib.Case, dim int, s *spec, b colliderBundle, ballName st
 		if p := callSafely(func() { f1, ok1 = w.first(Q, E) }); p != "" {
 			c.Violationf(key("FirstRayCollision", "panic"), wray("panic", p), "FirstRayCollision panicked: %s", p)
 		} else {
-			c.Count(pre+"first", 1)
+			tl.Count(pre+"first", 1)
 			if ok0 != ok1 {
 				c.Violationf(key("FirstRayCollision", "hit"), wray("collides", ok1, "original_collides", ok0), "%s: FirstRayCollision collides = %v, original %v", b.kind, ok1, ok0)
 			} else if ok0 {
@@ -689,7 +696,7 @@ func checkCollider(c *vlib.Case, dim int, s *spec, b colliderBundle, ballName st
 		if !bst || !(ac.G*ac.K <= 1e4) {
 			c.Undecided("collider.unstable-ball")
 		} else {
-			c.Count(pre+"balls", 1)
+			tl.Count(pre+"balls", 1)
 			if got := w.ball(C, k*rad); got != b0 {
 				c.Violationf(key(ballName, "equal"), wit(s, "object", objDesc(b.kind, b.desc), "center", cen, "radius", rad, "outer_center", C, "outer_radius", k*rad),
 					"%s: %s(t(c), k*r) = %v, original %s(c, r) = %v", b.kind, ballName, got, ballName, b0)
@@ -737,6 +744,8 @@ func boxDist(x, lo, hi V) float64 {
 }
 
 func checkMeta(c *vlib.Case, dim int, s *spec, b metaBundle) {
+	tl := newTally(c)
+	defer tl.flush()
 	rng := c.Rng
 	r := s.ref()
 	ri := r.inv()
@@ -749,8 +758,8 @@ func checkMeta(c *vlib.Case, dim int, s *spec, b metaBundle) {
 		return
 	}
 	pre := fmt.Sprintf("metaball%dd.", dim)
-	c.Count(pre+"objects."+baseKind(b.kind), 1)
-	c.Count(pre+"api."+api, 1)
+	tl.Count(pre+"objects."+baseKind(b.kind), 1)
+	tl.Count(pre+"api."+api, 1)
 	key := func(clause string) string { return fmt.Sprintf("%s[%s]/%s", api, s.Kind, clause) }
 	lo, hi := b.orig.lo(), b.orig.hi()
 	scale := boxScale(lo, hi)
@@ -776,7 +785,7 @@ func checkMeta(c *vlib.Case, dim int, s *spec, b metaBundle) {
 			b.spy.reset()
 		}
 		f1 := w.field(q)
-		c.Count(pre+"field", 1)
+		tl.Count(pre+"field", 1)
 		if b.spy != nil {
 			if b.spy.calls == 0 {
 				c.Violationf(key("original-not-consulted"), wit(s, "p", p), "MetaballField(t(p)) did not consult the original")
@@ -795,7 +804,7 @@ func checkMeta(c *vlib.Case, dim int, s *spec, b metaBundle) {
 		}
 		// bounds: a point where the field is clearly <= 0 must be inside Min/Max
 		if f1 < -1e-6*scale {
-			c.Count(pre+"bounds_points", 1)
+			tl.Count(pre+"bounds_points", 1)
 			slack := relTol * math.Max(a.M, math.Max(wl.maxAbs(), wh.maxAbs()))
 			for j := 0; j < dim; j++ {
 				if q[j] < wl[j]-slack || q[j] > wh[j]+slack {
@@ -836,7 +845,7 @@ func checkMeta(c *vlib.Case, dim int, s *spec, b metaBundle) {
 		for _, frac := range []float64{1, 0.5, 1e-3} {
 			dq := D * frac * (1 - 1e-9)
 			bd := w.bound(dq)
-			c.Count(pre+"dist_bound", 1)
+			tl.Count(pre+"dist_bound", 1)
 			if !(f1 >= bd-relTol*math.Abs(bd)-lipField(b, f0)*ptol*4) {
 				c.Violationf(key("dist-bound-not-a-lower-bound"), wit(s, "object", objDesc(b.kind, b.desc), "q", q, "true_distance", D, "asked_distance", dq, "bound", bd, "field", f1),
 					"%s of %s: MetaballDistBound(%.17g) = %.17g exceeds the field %.17g at a point whose distance to the surface is %.17g", api, b.kind, dq, bd, f1, D)
